@@ -20,6 +20,7 @@ import (
 func init() { register("C01", checkC01) }
 
 type c01Case struct {
+	layout   fo.Layout // nil = the default (tutorial) layout
 	choices  []int
 	cs       *fo.Case
 	src      string
